@@ -36,7 +36,7 @@ var run *h.Run
 
 func main() {
 	run = h.NewRun(prop, "exploration")
-	run.Rule = "batches: one sacrificial frps (or frpc) per batch with PRNG hook delays; per batch 4 unauthenticated fuzzers, 3 authenticated fuzzers (hostile login fields, then hostile control / work / visitor messages), churn actors (tcp/http groups, stcp visitors, xtcp + NAT-hole pre-check and session traffic) and an honest tunnel; messages = reflection-filled values of the 18 types over hostile pools (negative/zero/huge ints, empty/long/odd strings, nil/empty/large maps and lists, nil/IPv6 addresses); distinct = distinct (context, message type, encoded frame)"
+	run.Rule = "batches: one sacrificial frps (or frpc) per batch with PRNG hook delays; per batch 4 unauthenticated fuzzers, 3 authenticated fuzzers (hostile login fields, then hostile control / work / visitor messages), churn actors (tcp/http groups, stcp visitors, xtcp + NAT-hole pre-check and session traffic) and an honest tunnel; login-window cases: logins whose connection dies while frps is between accepting the Login and answering it (window widened by a 40 ms delay at registerControl.beforeStart), then a re-login with the same run id; messages = reflection-filled values of the 18 types over hostile pools (negative/zero/huge ints, empty/long/odd strings, nil/empty/large maps and lists, nil/IPv6 addresses); distinct = distinct (context, message type, encoded frame)"
 	run.Assumptions = []string{
 		"race policy: only reports whose top frame on either side is a runtime map function are judged (map class); close-vs-send channel reports are frp's recover idiom; other reports are listed in the evidence, not judged",
 		"wedge verdicts are decided after the barrage with bounded-progress watchdogs (30 s for a fresh login+registration+echo; 90 s for frpc to log in again at a benign server: max back-off 20 s x 1.1 + dial + slack)",
@@ -47,6 +47,7 @@ func main() {
 	run.ParallelRange(0, nS, 3, serverBatch)
 	run.ParallelRange(1000, nC, 2, clientBatch)
 	run.ParallelRange(2000, run.N(4, 16), 4, clientCancelCase)
+	run.ParallelRange(3000, run.N(4, 16), 2, loginWindowCase)
 	run.Finish(2000)
 }
 
@@ -1159,6 +1160,11 @@ func clientCancelCase(c *h.Case) {
 	logged := make(chan struct{}, 4)
 	fs, err := h.StartFakeServer(h.FakeServerOpts{Port: port, Token: token, TCPMux: true,
 		OnSession: func(s *h.FakeSession) { logged <- struct{}{} }})
+	for try := 0; err != nil && try < 3; try++ { // the port was free a moment ago; take another one
+		port = h.PortsSub(prop, 3, 4).Get()
+		fs, err = h.StartFakeServer(h.FakeServerOpts{Port: port, Token: token, TCPMux: true,
+			OnSession: func(s *h.FakeSession) { logged <- struct{}{} }})
+	}
 	if err != nil {
 		run.Inconclusive("fake server did not start: " + err.Error())
 		return
@@ -1187,4 +1193,93 @@ func clientCancelCase(c *h.Case) {
 		c.Violation("frpc-crash:"+frame, "frpc stopped right after a successful login (delay %d ms at keepControllerWorking) terminated abnormally: %s", delay, line)
 	}
 	run.Distinct(fmt.Sprintf("cancel-after-login|%d|%d", delay, c.Idx))
+}
+
+// ---------------------------------------------------------------------------------------------
+// login-window cases: the peer vanishes while frps is between accepting its Login and answering it. Whatever frps
+// does with the half-made session, the run id must stay usable: the client's next login carries the same run id
+// (frpc re-sends it on every reconnect) and has to be answered. A stall here is permanent and hits exactly the
+// clients that lost a connection at the wrong moment.
+
+func loginWindowCase(c *h.Case) {
+	mux := c.Idx%2 == 0
+	ps := h.PortsSub(prop, 3, 4)
+	bind := ps.Get()
+	cfg := fmt.Sprintf("bindAddr = \"127.0.0.1\"\nbindPort = %d\nauth.token = \"%s\"\ntransport.tcpMux = %v\n", bind, token, mux)
+	delay := []int{40, 40, 120, 15}[(c.Idx/2)%4]
+	child, err := h.StartChild(prop, "frps", cfg, fmt.Sprintf("VNODE_DELAY_AT=server.registerControl.beforeStart:%d", delay))
+	if err != nil {
+		run.Inconclusive("child frps did not start")
+		return
+	}
+	defer child.Kill()
+	c.Data["tcp_mux"], c.Data["delay_ms"] = mux, delay
+	dial := func(o h.PeerOpts) (*h.Peer, error) {
+		o.ServerPort, o.TCPMux, o.Token = bind, mux, token
+		return h.DialPeer(o)
+	}
+	n := 12
+	for i := 0; i < n; i++ {
+		rid := fmt.Sprintf("lw%d-%d", c.Idx, i)
+		raw, err := dial(h.PeerOpts{SkipLogin: true})
+		if err != nil {
+			if child.Exited() {
+				break
+			}
+			run.Inconclusive("login-window: transport dial failed")
+			return
+		}
+		ts := time.Now().Unix()
+		_ = msg.WriteMsg(raw.Ctl, &msg.Login{Version: "0.62.1", RunID: rid, Timestamp: ts, PrivilegeKey: h.AuthKey(token, ts), PoolCount: c.Rng.Intn(3)})
+		// the peer is gone before the answer can be written (frps sits in the widened window)
+		time.Sleep(time.Duration(c.Rng.Intn(delay)) * time.Millisecond / 2)
+		raw.Close()
+		run.Count("logins_cut_in_login_window", 1)
+		time.Sleep(time.Duration(delay+20+c.Rng.Intn(60)) * time.Millisecond)
+		type res struct {
+			p   *h.Peer
+			err error
+		}
+		ch := make(chan res, 1)
+		go func() { p, err := dial(h.PeerOpts{RunID: rid}); ch <- res{p, err} }()
+		select {
+		case r := <-ch:
+			if r.err != nil || !r.p.LoggedIn() {
+				if r.p != nil {
+					r.p.Close()
+				}
+				if child.Exited() {
+					break
+				}
+				c.Violation("frps-relogin-refused-after-login-window-cut", "tcpMux=%v: a login with run id %s was cut before it was answered; the re-login with the same run id failed: %v", mux, rid, r.err)
+				return
+			}
+			if _, err := r.p.Ping(20 * time.Second); err != nil {
+				c.Violation("frps-wedged-relogin-after-login-window-cut", "tcpMux=%v: re-login with run id %s was acknowledged but the session gets no Pong: %v", mux, rid, err)
+			}
+			r.p.Close()
+			run.Count("relogins_after_login_window_cut", 1)
+		case <-time.After(30 * time.Second):
+			// positive control: does frps answer a login with a fresh run id?
+			fresh, ferr := dial(h.PeerOpts{})
+			freshOK := ferr == nil && fresh.LoggedIn()
+			if fresh != nil {
+				fresh.Close()
+			}
+			c.Data["stderr_tail"] = tailStr(child.Stderr(), 4000)
+			c.Violation("frps-wedged-relogin-after-login-window-cut", "tcpMux=%v, %d ms window: a login with run id %s was cut before it was answered; the client's re-login with the same run id got no LoginResp within 30 s (a login with a fresh run id answered: %v) — every reconnect of that client hangs from now on", mux, delay, rid, freshOK)
+			return
+		}
+	}
+	if child.Exited() {
+		line, frame, ok := child.Crash()
+		if !ok {
+			line, frame = "child exited without panic text", "unknown"
+		}
+		c.Data["stderr_tail"] = tailStr(child.Stderr(), 6000)
+		c.Violation("frps-crash:"+frame, "frps terminated abnormally during login-window cuts: %s", line)
+		return
+	}
+	judgeRaces(c, "frps", child)
+	run.Distinct(fmt.Sprintf("login-window|%v|%d|%d", mux, delay, c.Idx))
 }
